@@ -476,6 +476,11 @@ func decodeMapTextTextFast(b []byte) (TransactionMetadatum, bool) {
 	if !ok {
 		return nil, false
 	}
+	// Every pair needs at least two bytes; do not size the slice from a
+	// claimed length the input cannot back
+	if count > (len(b)-offset)/2 {
+		return nil, false
+	}
 	pairs := make([]MetaPair, 0, count)
 	for range count {
 		key, nextOffset, ok := decodeCBORTextString(b, offset)
